@@ -72,6 +72,10 @@ func (c *FnVC) loopWrites(li *loopInfo) (map[string][]string, bool, bool) {
 				for k := range ks {
 					add(k, pat)
 				}
+			case *ssa.Next:
+				if rng, ok := x.Iter.(*ssa.Range); ok && x.IsString {
+					add("bv64", "EXACT:"+c.rangeLoc(rng)) // the iterator's ghost position
+				}
 			case *ssa.MapUpdate:
 				mi := c.te.mapOf(x.Map.Type().Underlying().(*types.Map))
 				pat := "true"
